@@ -64,6 +64,10 @@ func (e *Engine) verifyFunc(fn *ssa.Function, fc *FuncContract) *FuncReport {
 		}
 		s := e.newState(dec, name)
 		s.unfoldCRC = fc.Options["unfold-crcfold"]
+		s.ghostlog = map[string]bool{}
+		for _, g := range fc.GhostLog {
+			s.ghostlog[g] = true
+		}
 		func() {
 			defer func() {
 				if r := recover(); r != nil {
